@@ -134,6 +134,34 @@ check(
     "DESIGN.md §4 C16",
 )
 
+check(
+    "C14", "exploration",
+    "Hypothesis-generated sets of type[...] / bare type / object / ordinary-class methods and passed type objects "
+    "(classes, nested parametrised generics in builtin and typing spellings, typing.Any) and instances; outcome "
+    "compared with a subtype-based reference model, plus a metamorphic check that removing every type[...] method "
+    "never changes ordinary calls. Sampled.",
+    "Unspecified comparisons (bare vs parametrised of the same origin, different origins, arity mismatch) skipped and counted.",
+    "property-based differential testing against a subtype reference model + metamorphic relation",
+    "DESIGN.md §4 C14",
+)
+check(
+    "C15", "exploration",
+    "Hypothesis-generated method sets in which one annotation is respelled in a listed equivalent form; both programs "
+    "must produce identical outcome vectors over the call corpus. Sampled.",
+    "Only the equivalences the property lists are respelled.",
+    "metamorphic property-based testing (equivalent spellings => identical dispatch)",
+    "DESIGN.md §4 C15",
+)
+check(
+    "C17", "exploration",
+    "Hypothesis-generated class hierarchies as source text (OvldBase/OvldMC roots, multiple bases, plain mixins, "
+    "extend_super, priorities, recurse/call_next bodies); every class probed after its creation and after each later "
+    "class, against a reference interpreter of the documented merge/extend/replace/inherit rules. Sampled.",
+    "Undocumented shapes (several overloaded bases without extend_super, single undecorated definition, ...) not asserted.",
+    "property-based testing against a reference interpreter over generated class hierarchies",
+    "DESIGN.md §4 C17",
+)
+
 ALL = [f"C{i:02d}" for i in range(1, 21)]
 REASON_PENDING = "check not built yet in this revision of /verif (work in progress; see DESIGN.md §8)"
 
